@@ -32,6 +32,8 @@ static GenUri mutate(Tape &t, const GenUri &u, int *kind) {
         if (m.auth.host == "[::1]") m.auth.host = "[0:0:0:0:0:0:0:1]";
         else if (m.auth.host == "[0:0:0:0:0:0:0:1]") m.auth.host = "[::0.0.0.1]";
         else if (m.auth.hostKind == 2) m.auth.host = "[::" + m.auth.host + "]";
+        else if (m.auth.hostKind == 4) { m.auth.host = m.auth.host.substr(1, m.auth.host.size() - 2); m.auth.hostKind = 1; }  // IPvFuture literal -> registered name of the same text
+        else if (m.auth.hostKind == 1 && m.auth.host.size() >= 4 && (m.auth.host[0] == 'v' || m.auth.host[0] == 'V') && m.auth.host.find('%') == std::string::npos) { m.auth.host = "[" + m.auth.host + "]"; m.auth.hostKind = 4; }
         else if (m.auth.hostKind == 3) m.auth.host = "[::2]";
         else m.auth.host = "1.2.3.4";
       }
@@ -210,6 +212,18 @@ template <class A> static Verdict check_type(const Fields &f, int *minDiff, bool
   v = judge<A>(&w.at(i).uri, &w.at(k).uri, true, "history objects i~k", &ik, &d);
   if (v.kind != Verdict::PASS) return v;
   VF_REQUIRE(!(ij && jk) || ik, "%s: uriEqualsUri is not transitive on history objects", A::name());
+  // an object and the parse of its own recomposed text have identical texts, so they must compare equal
+  {
+    std::string ti;
+    VF_REQUIRE(to_string<A>(w.at(i).uri, &ti), "%s: uriToString failed on a history object", A::name());
+    Parsed<A> back;
+    parse_via<A>(back, PE_SINGLE_EX, widen<Ch>(ti));
+    if (back.rc == 0) {
+      bool same; int dd;
+      v = judge<A>(&w.at(i).uri, &back.uri, true, "history object vs the parse of its own text", &same, &dd);
+      if (v.kind != Verdict::PASS) return v;
+    }
+  }
   *anyEqual3 = ij;
   return Verdict::pass();
 }
